@@ -6,7 +6,9 @@ import (
 	errorsmod "cosmossdk.io/errors"
 	sdkerrorstypes "github.com/cosmos/cosmos-sdk/types/errors"
 	authtypes "github.com/cosmos/cosmos-sdk/x/auth/types"
+	"github.com/ethereum/go-ethereum/accounts/abi"
 	"github.com/ethereum/go-ethereum/common"
+	evmtypes "github.com/evmos/evmos/v19/x/evm/types"
 
 	"github.com/settlus/chain/contracts"
 	ctypes "github.com/settlus/chain/types"
@@ -96,6 +98,26 @@ func (k SettlementKeeper) GetRecipients(ctx sdk.Context, chainId string, contrac
 	return append(recipients, recipient), nil
 }
 
+// callContract calls a contract whose address was chosen by a user: the NFT contract named in a record, the
+// token contract a tenant configured. The EVM panics on some addresses (a precompile address the EVM keeper
+// holds no instance for). Such a call has failed like any other: the message is rejected, the payout is
+// deferred. A panic would escape to the end-blocker and halt the chain.
+func (k SettlementKeeper) callContract(
+	ctx sdk.Context, contractABI abi.ABI, from, contract common.Address, commit bool, method string, args ...interface{},
+) (res *evmtypes.MsgEthereumTxResponse, err error) {
+	defer func() {
+		if r := recover(); r != nil {
+			switch r.(type) {
+			case storetypes.ErrorOutOfGas, storetypes.ErrorGasOverflow:
+				// the gas accounting of the transaction: handled by the caller of the message
+				panic(r)
+			}
+			res, err = nil, fmt.Errorf("evm call to %s panicked: %v", contract, r)
+		}
+	}()
+	return k.evmk.CallEVM(ctx, contractABI, from, contract, commit, method, args...)
+}
+
 // FindInternalOwner returns the owner of the given NFT on current chain
 func (k SettlementKeeper) FindInternalOwner(
 	ctx sdk.Context, contractAddr string, tokenIdHex string,
@@ -103,7 +125,7 @@ func (k SettlementKeeper) FindInternalOwner(
 	erc721 := contracts.ERC721Contract.ABI
 	tokenId := common.HexToHash(tokenIdHex)
 	contract := common.HexToAddress(contractAddr)
-	res, err := k.evmk.CallEVM(ctx, erc721, types.ModuleAddress, contract, false, "ownerOf", tokenId.Big())
+	res, err := k.callContract(ctx, erc721, types.ModuleAddress, contract, false, "ownerOf", tokenId.Big())
 	if err != nil {
 		return nil, fmt.Errorf("call evm failed: %w", err)
 	}
